@@ -66,6 +66,7 @@ type globalInit struct {
 	frame int64
 	msg   string
 	idx   int
+	entries [][2]string
 }
 
 func LoadEngine(repo string, contractFiles map[string]string, specDir string) (*Engine, error) {
@@ -188,7 +189,7 @@ func (eng *Engine) namedType(name string) types.Type {
 }
 
 func (eng *Engine) typeID(t types.Type) int {
-	k := types.TypeString(t, nil)
+	k := strings.ReplaceAll(types.TypeString(t, nil), "byte", "uint8")
 	if id, ok := eng.typeIDs[k]; ok {
 		return id
 	}
@@ -449,6 +450,38 @@ func onlyLoadedOrCalled(v ssa.Value) bool {
 }
 
 func (eng *Engine) initOf(p *packages.Package, e ast.Expr) *globalInit {
+	if cl, ok := e.(*ast.CompositeLit); ok {
+		if at, ok := cl.Type.(*ast.ArrayType); ok && at.Len == nil {
+			if _, isPtr := at.Elt.(*ast.StarExpr); isPtr {
+				gi := &globalInit{kind: "ptrslice", code: int64(len(cl.Elts))}
+				// entries of the form {key: []byte("..."), value: []byte("...")} are recorded for the static table
+				for _, el := range cl.Elts {
+					ent := [2]string{}
+					if c2, ok := el.(*ast.CompositeLit); ok {
+						for _, kv := range c2.Elts {
+							if k, ok := kv.(*ast.KeyValueExpr); ok {
+								if id, ok := k.Key.(*ast.Ident); ok {
+									if call, ok := k.Value.(*ast.CallExpr); ok && len(call.Args) == 1 {
+										if tv, ok := p.TypesInfo.Types[call.Args[0]]; ok && tv.Value != nil {
+											if sv, err := strconv.Unquote(tv.Value.ExactString()); err == nil {
+												if id.Name == "key" {
+													ent[0] = sv
+												} else if id.Name == "value" {
+													ent[1] = sv
+												}
+											}
+										}
+									}
+								}
+							}
+						}
+					}
+					gi.entries = append(gi.entries, ent)
+				}
+				return gi
+			}
+		}
+	}
 	call, ok := e.(*ast.CallExpr)
 	if !ok {
 		return nil
